@@ -125,7 +125,9 @@ func (t *zzTransport) Flush() error {
 }
 
 func (t *zzTransport) Read(p []byte) (int, error) {
-	t.reads++
+	if t.reads < 4 {
+		t.reads++ // saturating counter (keeps spinning readers in a finite state space)
+	}
 	if t.readOff < len(t.readData) {
 		n := copy(p, t.readData[t.readOff:])
 		t.readOff += n
@@ -276,3 +278,5 @@ func zzSplit(k int) int {
 	}
 	return k
 }
+
+func vrtBackground() context.Context { return context.Background() }
